@@ -149,6 +149,14 @@ def build(kind, defect, where, rng):
         if kind == "cabs2_scalar":
             return P, (complex(rng.uniform(0.3, 1.2), rng.uniform(0.3, 1.2)),)
         return P, (rng.uniform(0.3, 1.2, size=3) + 1j * rng.uniform(0.3, 1.2, size=3),)
+    if kind == "sqlinear":
+        # y = A x with a square, non-symmetric A: input and output spaces coincide, and using A where A' belongs
+        # (or the reverse) is an error whose quadratic form x'(A - A')x vanishes identically
+        Amat = rng.uniform(0.5, 1.5, size=(4, 4)) * rng.choice([-1.0, 1.0], size=(4, 4))
+        P = primitive(lambda x: onp.dot(Amat, x))
+        defvjp(P, lambda ans, x: lambda g: apply_defect(anp.dot(Amat if dv == "transpose" else Amat.T, g), None if dv == "transpose" else dv, ctx))
+        defjvp(P, lambda g, ans, x: apply_defect(anp.dot(Amat.T if dj == "transpose" else Amat, g), None if dj == "transpose" else dj, ctx))
+        return P, (rng.uniform(0.3, 1.2, size=4),)
     if kind == "cmatrix":
         # complex matrix argument; the derivative comes back as a transposed (non C-contiguous) view
         B = rng.uniform(0.5, 1.5, size=(3, 2)) + 1j * rng.uniform(0.2, 0.8, size=(3, 2))
@@ -240,7 +248,7 @@ def build_combo(st, rng):
 
 def settings(tier):
     out = []
-    kinds = ["scalar", "vector", "matrix", "bcast", "complex", "container", "cscalar", "cabs2_scalar", "cabs2_vector", "cmatrix", "dictarg"]
+    kinds = ["scalar", "vector", "matrix", "bcast", "complex", "container", "cscalar", "cabs2_scalar", "cabs2_vector", "cmatrix", "dictarg", "sqlinear"]
     for kind in kinds:
         if kind == "dictarg":
             # autograd's dict constructor has no forward rule: a rule that builds a dict cannot be differentiated
@@ -255,7 +263,7 @@ def settings(tier):
         defects = ["factor:0.01", "factor:-0.01", "factor:0.1", "factor:1.0", "sign", "entry:0.1", "entry:1.0"]
         if kind in ("vector",):
             defects.append("reverse")
-        if kind in ("matrix", "cmatrix"):
+        if kind in ("matrix", "cmatrix", "sqlinear"):
             defects.append("transpose")
         if kind == "bcast":
             defects.append("missing_reduction")
@@ -273,12 +281,18 @@ def settings(tier):
                 if d in ("factor:0.1", "sign", "entry:1.0") and kind != "dictarg":
                     out.append({"kind": kind, "defect": d, "where": where, "modes": ["fwd", "rev"], "order": 2})
         # order-2 defects: first-order values right, rule not traceable
-        if kind not in ("container", "bcast", "cabs2_scalar", "cabs2_vector", "cmatrix", "dictarg"):
+        if kind not in ("container", "bcast", "cabs2_scalar", "cabs2_vector", "cmatrix", "dictarg", "sqlinear"):
             for where in ("vjp", "jvp"):
                 m = "rev" if where == "vjp" else "fwd"
                 out.append({"kind": kind, "defect": "order2_untraceable", "where": where, "modes": [m], "order": 2})
         # informational: the suite's own 1e-3 factor
         out.append({"kind": kind, "defect": "factor:0.001", "where": "vjp", "modes": ["rev"], "order": 1, "informational": True})
+    # the same settings again AFTER a default-modes check of a primitive that has no forward rule (that check
+    # fails loudly): later checks must be unaffected
+    for kind in ("vector", "scalar"):
+        for d, where in (("sign", "jvp"), ("factor:0.1", "jvp"), ("sign", "vjp")):
+            out.append({"kind": kind, "defect": d, "where": where, "modes": None, "order": 1, "after_vjp_only": True})
+        out.append({"kind": kind, "defect": None, "where": None, "modes": None, "order": 2, "after_vjp_only": True})
     # combo_check: the defect is active for exactly one (positional candidate, keyword candidate) combination
     for kw in (True, False):
         out.append({"kind": "combo", "defect": None, "where": None, "modes": ["fwd", "rev"], "order": 2, "kw": kw, "trigger": None})
@@ -292,8 +306,11 @@ def settings(tier):
 def run_setting(res, st, n_trials, seed):
     from autograd.test_util import check_grads
 
-    name = "%s|%s|%s|%s|o%d" % (st["kind"], st["defect"], st["where"], "+".join(st["modes"]), st["order"])
+    name = "%s|%s|%s|%s|o%d" % (st["kind"], st["defect"], st["where"], "+".join(st["modes"] or ["default"]), st["order"])
     sig = {"engine": "checker", "kind": st["kind"], "defect": st["defect"], "where": st["where"], "modes": st["modes"], "order": st["order"]}
+    if st.get("after_vjp_only"):
+        sig["after_vjp_only"] = True
+        name += "|after_vjp_only"
     if st["kind"] == "combo":
         sig.update(kw=st["kw"], trigger=st["trigger"])
         name += "|kw=%s|trigger=%s" % (st["kw"], st["trigger"])
@@ -316,7 +333,17 @@ def run_setting(res, st, n_trials, seed):
             with warnings.catch_warnings():
                 warnings.simplefilter("ignore")
                 argn = tuple(range(len(args))) if len(args) > 1 else 0
-                if st["kind"] == "combo":
+                if st.get("after_vjp_only"):
+                    from autograd.extend import defvjp as _dv, primitive as _pr
+
+                    Pv = _pr(lambda x: x * 3.0)
+                    _dv(Pv, lambda ans, x: lambda g: g * 3.0)
+                    try:
+                        check_grads(Pv)(onp.array([0.4, -0.9]))
+                    except Exception:
+                        pass
+                    check_grads(fun, order=st["order"])(*args)  # default modes
+                elif st["kind"] == "combo":
                     fun.seen.clear()
                     try:
                         args[0]()
